@@ -1,17 +1,492 @@
-//! module `fb` — streams `fb.*` (not built yet).
+//! module `fb` (serves C10) — the framebuffer reads back what was written, in the layout of ImageRaw.
+//!
+//! Stream (every result line is compared with the Lean model `EG.Model.Framebuffer`):
+//!   fb.hist <bits> <order 0|1> <W> <H> <extra> <op> <op> ...
+//!      op = comma list of integers, first item the kind:
+//!        0,x,y,c              set_pixel((x,y), c)
+//!        1,x,y,c,x,y,c,...    draw_iter of those pixels
+//!        2,x,y,w,h,c          fill_solid(Rectangle((x,y),(w,h)), c)
+//!        3,c                  clear(c)
+//!        4,x,y,w,h,c,c,...    fill_contiguous(Rectangle((x,y),(w,h)), [c, c, ...])
+//!      The real `Framebuffer<C, C::Raw, O, W, H, N>` is instantiated by macro for 7 depths
+//!      (BinaryColor, Gray2, Gray4, Gray8, Rgb565, Rgb888, a RawU32-backed test colour) x 2 data
+//!      orders x sizes {1x1, 5x3, 8x2, 9x2, 13x3} x N = BUFFER_SIZE + extra, extra in {0, 3}.
+//!      The extra bytes are pre-set through `data_mut()` to 0xA5, 0x5A, 0xC3 so that a write into
+//!      them is visible.
+//!      -> `d=<data() bytes> p=<pixel() over y = -1..=H, x = -1..=W row-major; n = None>
+//!          img=<pixel map left by drawing as_image() at the origin on a draw_iter-only target>`
+//!
+//! Oracle (property text as predicates; reference = a HashMap last-write model fed with the
+//! documented meaning of each operation), evaluated after EVERY op of the history:
+//!   Lean statements mirrored: `get_set`, `history_refines_map`, `outside_noop`, `tail_untouched`,
+//!   `buffer_size_spec`, `as_image_spec` (+ the layout of the bytes, by `m_raw::ref_load`).
 use crate::common::*;
+use crate::m_raw::{mask, ref_load};
+use embedded_graphics::{
+    framebuffer::{buffer_size, Framebuffer},
+    image::{GetPixel, Image, ImageRaw},
+    pixelcolor::{raw::*, *},
+    prelude::*,
+    primitives::Rectangle,
+    Pixel,
+};
+use std::collections::HashMap;
 
 pub struct M;
+
+/// A colour type backed by `RawU32` (no built-in colour is).
+#[derive(Debug, Copy, Clone, PartialEq, Eq)]
+pub struct U32Color(u32);
+impl PixelColor for U32Color {
+    type Raw = RawU32;
+}
+impl From<RawU32> for U32Color {
+    fn from(raw: RawU32) -> Self {
+        Self(raw.into_inner())
+    }
+}
+impl From<U32Color> for RawU32 {
+    fn from(color: U32Color) -> Self {
+        Self::new(color.0)
+    }
+}
+impl ColNum for U32Color {
+    fn num(&self) -> u32 {
+        self.0
+    }
+    fn from_num(n: u32) -> Self {
+        U32Color(n)
+    }
+}
+
+const TAIL: [u8; 8] = [0xA5, 0x5A, 0xC3, 0x3C, 0x99, 0x66, 0xF0, 0x0F];
+const SIZES: [(usize, usize); 5] = [(1, 1), (5, 3), (8, 2), (9, 2), (13, 3)];
+const DEPTHS: [u32; 7] = [1, 2, 4, 8, 16, 24, 32];
+
+/// What the harness needs from a concrete framebuffer instantiation.
+trait FbDyn {
+    fn set(&mut self, p: Point, c: u32);
+    fn iter(&mut self, px: &[(Point, u32)]);
+    fn solid(&mut self, area: Rectangle, c: u32);
+    fn clear_(&mut self, c: u32);
+    fn contiguous(&mut self, area: Rectangle, cs: &[u32]);
+    fn bytes(&self) -> Vec<u8>;
+    fn preset_tail(&mut self, from: usize);
+    fn get(&self, p: Point) -> Option<u32>;
+    /// pixel map left by drawing `as_image()` at the origin on `R1`
+    fn image_map(&self) -> PMap;
+    /// `as_image()` equals the `ImageRaw` of the same colour type and order over `data()[0..BUFFER_SIZE]`
+    fn image_is_raw_over_prefix(&self, buffer_size: usize) -> bool;
+    fn dims(&self) -> (u32, u32);
+}
+
+macro_rules! fb_body {
+    ($o:ty) => {
+        fn set(&mut self, p: Point, c: u32) {
+            self.set_pixel(p, C::from_num(c));
+        }
+        fn iter(&mut self, px: &[(Point, u32)]) {
+            self.draw_iter(px.iter().map(|(p, c)| Pixel(*p, C::from_num(*c)))).unwrap();
+        }
+        fn solid(&mut self, area: Rectangle, c: u32) {
+            self.fill_solid(&area, C::from_num(c)).unwrap();
+        }
+        fn clear_(&mut self, c: u32) {
+            self.clear(C::from_num(c)).unwrap();
+        }
+        fn contiguous(&mut self, area: Rectangle, cs: &[u32]) {
+            self.fill_contiguous(&area, cs.iter().map(|c| C::from_num(*c))).unwrap();
+        }
+        fn bytes(&self) -> Vec<u8> {
+            self.data().to_vec()
+        }
+        fn preset_tail(&mut self, from: usize) {
+            for (j, b) in self.data_mut().iter_mut().enumerate().skip(from) {
+                *b = TAIL[(j - from) % TAIL.len()];
+            }
+        }
+        fn get(&self, p: Point) -> Option<u32> {
+            self.pixel(p).map(|c| c.num())
+        }
+        fn image_map(&self) -> PMap {
+            let mut r = R1::<C>::unbounded();
+            let raw = self.as_image();
+            Image::new(&raw, Point::zero()).draw(&mut r).unwrap();
+            r.rec.map
+        }
+        fn image_is_raw_over_prefix(&self, buffer_size: usize) -> bool {
+            let size = self.size();
+            match ImageRaw::<C, $o>::new(&self.data()[0..buffer_size], size) {
+                Ok(raw) => raw == self.as_image(),
+                Err(_) => false,
+            }
+        }
+        fn dims(&self) -> (u32, u32) {
+            let s = self.size();
+            (s.width, s.height)
+        }
+    };
+}
+/// the library's own impl families: sub-byte and RawU8 are generic in the data order ...
+macro_rules! fam_any_order {
+    ($raw:ty) => {
+        impl<C: PixelColor<Raw = $raw> + ColNum, O: DataOrder + PartialEq, const W: usize, const H: usize, const N: usize> FbDyn
+            for Framebuffer<C, $raw, O, W, H, N>
+        {
+            fb_body!(O);
+        }
+    };
+}
+/// ... the multi-byte family has one impl per order
+macro_rules! fam_fixed_order {
+    ($raw:ty, $o:ty) => {
+        impl<C: PixelColor<Raw = $raw> + ColNum, const W: usize, const H: usize, const N: usize> FbDyn
+            for Framebuffer<C, $raw, $o, W, H, N>
+        {
+            fb_body!($o);
+        }
+    };
+}
+fam_any_order!(RawU1);
+fam_any_order!(RawU2);
+fam_any_order!(RawU4);
+fam_any_order!(RawU8);
+fam_fixed_order!(RawU16, LittleEndianMsb0);
+fam_fixed_order!(RawU16, BigEndianLsb0);
+fam_fixed_order!(RawU24, LittleEndianMsb0);
+fam_fixed_order!(RawU24, BigEndianLsb0);
+fam_fixed_order!(RawU32, LittleEndianMsb0);
+fam_fixed_order!(RawU32, BigEndianLsb0);
+
+macro_rules! mk_one {
+    ($c:ty, $o:ty, $w:expr, $h:expr, $extra:expr) => {
+        if $extra == 0 {
+            Box::new(Framebuffer::<$c, <$c as PixelColor>::Raw, $o, $w, $h, { buffer_size::<$c>($w, $h) }>::new()) as Box<dyn FbDyn>
+        } else {
+            Box::new(Framebuffer::<$c, <$c as PixelColor>::Raw, $o, $w, $h, { buffer_size::<$c>($w, $h) + 3 }>::new()) as Box<dyn FbDyn>
+        }
+    };
+}
+macro_rules! mk_size {
+    ($c:ty, $o:ty, $w:expr, $h:expr, $extra:expr) => {
+        match ($w, $h) {
+            (1, 1) => mk_one!($c, $o, 1, 1, $extra),
+            (5, 3) => mk_one!($c, $o, 5, 3, $extra),
+            (8, 2) => mk_one!($c, $o, 8, 2, $extra),
+            (9, 2) => mk_one!($c, $o, 9, 2, $extra),
+            (13, 3) => mk_one!($c, $o, 13, 3, $extra),
+            _ => panic!("size not instantiated"),
+        }
+    };
+}
+macro_rules! mk_order {
+    ($c:ty, $ord:expr, $w:expr, $h:expr, $extra:expr) => {
+        if $ord == 0 {
+            mk_size!($c, LittleEndianMsb0, $w, $h, $extra)
+        } else {
+            mk_size!($c, BigEndianLsb0, $w, $h, $extra)
+        }
+    };
+}
+fn make(bits: u32, ord: u32, w: usize, h: usize, extra: usize) -> Box<dyn FbDyn> {
+    assert!(extra == 0 || extra == 3, "extra not instantiated");
+    match bits {
+        1 => mk_order!(BinaryColor, ord, w, h, extra),
+        2 => mk_order!(Gray2, ord, w, h, extra),
+        4 => mk_order!(Gray4, ord, w, h, extra),
+        8 => mk_order!(Gray8, ord, w, h, extra),
+        16 => mk_order!(Rgb565, ord, w, h, extra),
+        24 => mk_order!(Rgb888, ord, w, h, extra),
+        32 => mk_order!(U32Color, ord, w, h, extra),
+        _ => panic!("bad depth"),
+    }
+}
+
+#[derive(Debug)]
+enum Op {
+    Set(Point, u32),
+    Iter(Vec<(Point, u32)>),
+    Solid(Rectangle, u32),
+    Clear(u32),
+    Contiguous(Rectangle, Vec<u32>),
+}
+
+fn parse_op(tok: &str) -> Op {
+    let v: Vec<i64> = tok.split(',').map(|x| x.parse().expect("bad op item")).collect();
+    let pt = |i: usize| Point::new(v[i] as i32, v[i + 1] as i32);
+    match v[0] {
+        0 => Op::Set(pt(1), v[3] as u32),
+        1 => Op::Iter(v[1..].chunks(3).map(|t| (Point::new(t[0] as i32, t[1] as i32), t[2] as u32)).collect()),
+        2 => Op::Solid(Rectangle::new(pt(1), Size::new(v[3] as u32, v[4] as u32)), v[5] as u32),
+        3 => Op::Clear(v[1] as u32),
+        4 => Op::Contiguous(Rectangle::new(pt(1), Size::new(v[3] as u32, v[4] as u32)), v[5..].iter().map(|c| *c as u32).collect()),
+        _ => panic!("bad op kind"),
+    }
+}
+
+/// the documented meaning of an operation as a list of pixel writes (points anywhere)
+fn writes_of(op: &Op, w: i64, h: i64) -> Vec<((i64, i64), u32)> {
+    let area_pts = |a: &Rectangle| -> Vec<(i64, i64)> {
+        let mut v = Vec::new();
+        for dy in 0..a.size.height as i64 {
+            for dx in 0..a.size.width as i64 {
+                v.push((a.top_left.x as i64 + dx, a.top_left.y as i64 + dy));
+            }
+        }
+        v
+    };
+    match op {
+        Op::Set(p, c) => vec![((p.x as i64, p.y as i64), *c)],
+        Op::Iter(px) => px.iter().map(|(p, c)| ((p.x as i64, p.y as i64), *c)).collect(),
+        Op::Solid(a, c) => area_pts(a).into_iter().map(|p| (p, *c)).collect(),
+        Op::Clear(c) => {
+            let mut v = Vec::new();
+            for y in 0..h {
+                for x in 0..w {
+                    v.push(((x, y), *c));
+                }
+            }
+            v
+        }
+        Op::Contiguous(a, cs) => area_pts(a).into_iter().zip(cs.iter().copied()).collect(),
+    }
+}
+
+fn fmt_op(op: &Op) -> String {
+    match op {
+        Op::Set(p, c) => format!("0,{},{},{}", p.x, p.y, c),
+        Op::Iter(px) => {
+            let mut s = String::from("1");
+            for (p, c) in px {
+                s.push_str(&format!(",{},{},{}", p.x, p.y, c));
+            }
+            s
+        }
+        Op::Solid(a, c) => format!("2,{},{},{},{},{}", a.top_left.x, a.top_left.y, a.size.width, a.size.height, c),
+        Op::Clear(c) => format!("3,{}", c),
+        Op::Contiguous(a, cs) => {
+            let mut s = format!("4,{},{},{},{}", a.top_left.x, a.top_left.y, a.size.width, a.size.height);
+            for c in cs {
+                s.push_str(&format!(",{}", c));
+            }
+            s
+        }
+    }
+}
+
+fn rand_point(rng: &mut Rng, w: i64, h: i64) -> Point {
+    match rng.below(20) {
+        0..=13 => Point::new(rng.range(0, w - 1) as i32, rng.range(0, h - 1) as i32),
+        14..=17 => Point::new(rng.range(-2, w + 1) as i32, rng.range(-2, h + 1) as i32),
+        18 => Point::new(
+            *rng.pick(&[i32::MIN, -1, w as i32, i32::MAX, 1 << 20, 65536, 256]),
+            rng.range(0, h - 1) as i32,
+        ),
+        _ => Point::new(
+            rng.range(0, w - 1) as i32,
+            *rng.pick(&[i32::MIN, -1, h as i32, i32::MAX, 1 << 20, 65536, 256]),
+        ),
+    }
+}
+fn rand_color(rng: &mut Rng, bits: u32) -> u32 {
+    let m = mask(bits);
+    match rng.below(8) {
+        0 => m,
+        1 => 0,
+        2 => 1,
+        _ => (rng.next() as u32) & m,
+    }
+}
+fn rand_area(rng: &mut Rng, w: i64, h: i64) -> Rectangle {
+    Rectangle::new(
+        Point::new(rng.range(-2, w) as i32, rng.range(-2, h) as i32),
+        Size::new(rng.range(0, (w + 2).min(6)) as u32, rng.range(0, (h + 2).min(4)) as u32),
+    )
+}
+fn rand_op(rng: &mut Rng, bits: u32, w: i64, h: i64) -> Op {
+    match rng.below(20) {
+        0..=10 => Op::Set(rand_point(rng, w, h), rand_color(rng, bits)),
+        11..=13 => {
+            let n = rng.range(0, 5);
+            Op::Iter((0..n).map(|_| (rand_point(rng, w, h), rand_color(rng, bits))).collect())
+        }
+        14..=16 => Op::Solid(rand_area(rng, w, h), rand_color(rng, bits)),
+        17 => Op::Clear(rand_color(rng, bits)),
+        _ => {
+            let a = rand_area(rng, w, h);
+            let n = (a.size.width * a.size.height) as i64;
+            let k = (n + rng.range(-3, 2)).max(0);
+            Op::Contiguous(a, (0..k).map(|_| rand_color(rng, bits)).collect())
+        }
+    }
+}
 
 impl Module for M {
     fn name(&self) -> &'static str {
         "fb"
     }
     fn rule(&self) -> &'static str {
-        "not built yet"
+        "ops: for each of 7 depths x 2 data orders x sizes {1x1,5x3,8x2,9x2,13x3} x N in {BUFFER_SIZE, BUFFER_SIZE+3}: \
+         the empty history, one set_pixel of the all-ones colour and of colour 1 at every point of the box + 1px margin \
+         (exhaustive), then seeded random histories (200 of length <= 12 quick; 5000 of length <= 40 thorough) of set_pixel / \
+         draw_iter / fill_solid / clear / fill_contiguous with points inside, in the margin and far outside (i32::MIN/MAX). \
+         A history is non-trivial when at least one of its writes lands inside the box with a colour different from the \
+         pixel's previous one; distinct = distinct op text."
     }
-    fn generate(&self, _pid: &str, _tier: Tier, _rng: &mut Rng, _emit: &mut dyn FnMut(String)) {}
-    fn execute(&self, op: &str, _ctx: &mut Ctx) -> String {
-        panic!("unknown op {}", op)
+
+    fn generate(&self, _pid: &str, tier: Tier, rng: &mut Rng, emit: &mut dyn FnMut(String)) {
+        let (n_hist, max_len) = if tier == Tier::Quick { (200, 12) } else { (5000, 40) };
+        for &bits in &DEPTHS {
+            for order in 0..2u32 {
+                for &(w, h) in &SIZES {
+                    for extra in [0usize, 3] {
+                        let head = format!("fb.hist {} {} {} {} {}", bits, order, w, h, extra);
+                        emit(head.clone());
+                        let (wi, hi) = (w as i64, h as i64);
+                        if extra == 3 || tier == Tier::Thorough {
+                            for y in -1..=hi {
+                                for x in -1..=wi {
+                                    emit(format!("{} 0,{},{},{}", head, x, y, mask(bits)));
+                                    emit(format!("{} 0,{},{},1", head, x, y));
+                                }
+                            }
+                        }
+                        for _ in 0..n_hist {
+                            let len = rng.range(1, max_len);
+                            let ops: Vec<String> = (0..len).map(|_| fmt_op(&rand_op(rng, bits, wi, hi))).collect();
+                            emit(format!("{} {}", head, ops.join(" ")));
+                        }
+                    }
+                }
+            }
+        }
+    }
+
+    fn execute(&self, op: &str, ctx: &mut Ctx) -> String {
+        let mut t = Toks::new(op);
+        let stream = t.str();
+        assert!(stream == "fb.hist", "unknown op {}", op);
+        let bits = t.u32();
+        let order = t.u32();
+        let w = t.usize();
+        let h = t.usize();
+        let extra = t.usize();
+        let mut ops = Vec::new();
+        while let Some(tok) = t.opt() {
+            ops.push(parse_op(tok));
+        }
+        ctx.count(&format!("fb:bits={}:order={}", bits, order));
+        ctx.count(&format!("fb:size={}x{}:extra={}", w, h, extra));
+        ctx.count(&format!("fb:history-length={}", match ops.len() { 0 => "0", 1 => "1", 2..=5 => "2-5", 6..=12 => "6-12", _ => "13+" }));
+
+        let mut fb = make(bits, order, w, h, extra);
+        let (wi, hi) = (w as i64, h as i64);
+        // buffer_size formula: rows are padded to whole bytes
+        let row_bytes = (w * bits as usize + 7) / 8;
+        let bs = row_bytes * h;
+        ctx.expect(fb.bytes().len() == bs + extra, "buffer-size", || format!("{} N={} expected {}", op, fb.bytes().len(), bs + extra));
+        ctx.expect(fb.dims() == (w as u32, h as u32), "size", || format!("{} size {:?}", op, fb.dims()));
+        fb.preset_tail(bs);
+        let tail0: Vec<u8> = fb.bytes()[bs..].to_vec();
+
+        // reference: last-write map; never written = the all-zero colour
+        let mut model: HashMap<(i64, i64), u32> = HashMap::new();
+        let mut nontrivial = false;
+        let inside = |x: i64, y: i64| x >= 0 && y >= 0 && x < wi && y < hi;
+        // pixel index of (x, y) in the ImageRaw layout: rows padded to whole bytes
+        let row_pixels = if bits < 8 { row_bytes * (8 / bits as usize) } else { w };
+
+        let check = |fb: &dyn FbDyn, model: &HashMap<(i64, i64), u32>, ctx: &mut Ctx, step: usize| {
+            let data = fb.bytes();
+            for y in -1..=hi {
+                for x in -1..=wi {
+                    let got = fb.get(Point::new(x as i32, y as i32));
+                    let want = if inside(x, y) { Some(*model.get(&(x, y)).unwrap_or(&0)) } else { None };
+                    // pixel(p): the colour most recently written (zero if never), None outside
+                    ctx.expect(got == want, if inside(x, y) { "pixel-last-write" } else { "pixel-outside-none" }, || {
+                        format!("{} after op {}: pixel({},{}) = {:?}, want {:?}", op, step, x, y, got, want)
+                    });
+                    if inside(x, y) {
+                        // the layout of ImageRaw: the bytes, read by the documented bit arithmetic
+                        let l = ref_load(bits, order, &data[..bs], y as usize * row_pixels + x as usize);
+                        ctx.expect(l == want, "layout-bytes", || format!("{} after op {}: bytes say {:?} at ({},{}), want {:?}", op, step, l, x, y, want));
+                    }
+                }
+            }
+            // bytes beyond the used prefix are never modified
+            ctx.expect(data[bs..] == tail0[..], "tail-modified", || format!("{} after op {}: tail {:?}", op, step, &data[bs..]));
+        };
+
+        check(fb.as_ref(), &model, ctx, 0);
+        for (k, o) in ops.iter().enumerate() {
+            let before = fb.bytes();
+            match o {
+                Op::Set(p, c) => {
+                    ctx.count("op:set_pixel");
+                    fb.set(*p, *c)
+                }
+                Op::Iter(px) => {
+                    ctx.count("op:draw_iter");
+                    fb.iter(px)
+                }
+                Op::Solid(a, c) => {
+                    ctx.count("op:fill_solid");
+                    fb.solid(*a, *c)
+                }
+                Op::Clear(c) => {
+                    ctx.count("op:clear");
+                    fb.clear_(*c)
+                }
+                Op::Contiguous(a, cs) => {
+                    ctx.count("op:fill_contiguous");
+                    fb.contiguous(*a, cs)
+                }
+            }
+            let ws = writes_of(o, wi, hi);
+            let mut any_inside = false;
+            for ((x, y), c) in ws {
+                if inside(x, y) {
+                    any_inside = true;
+                    if *model.get(&(x, y)).unwrap_or(&0) != c {
+                        nontrivial = true;
+                    }
+                    model.insert((x, y), c);
+                    ctx.count("write:inside");
+                } else {
+                    ctx.count("write:outside");
+                }
+            }
+            if !any_inside {
+                // writes outside the area change no byte
+                let after = fb.bytes();
+                ctx.expect(after == before, "outside-write-changed-bytes", || format!("{} op {}: {:?} -> {:?}", op, k + 1, before, after));
+            }
+            check(fb.as_ref(), &model, ctx, k + 1);
+        }
+        if nontrivial {
+            ctx.nontrivial(op);
+        }
+
+        // as_image(): same colour type, same order, same bytes; drawing it reproduces the content
+        ctx.expect(fb.image_is_raw_over_prefix(bs), "as-image-not-raw-over-prefix", || op.to_string());
+        let img = fb.image_map();
+        let mut want_img = PMap::new();
+        for y in 0..hi {
+            for x in 0..wi {
+                want_img.insert((y as i32, x as i32), *model.get(&(x, y)).unwrap_or(&0));
+            }
+        }
+        ctx.expect(img == want_img, "as-image-draw", || format!("{} drawn {} want {}", op, fmt_map(&img), fmt_map(&want_img)));
+
+        let mut grid = Vec::new();
+        for y in -1..=hi {
+            for x in -1..=wi {
+                grid.push(match fb.get(Point::new(x as i32, y as i32)) {
+                    Some(v) => v.to_string(),
+                    None => "n".into(),
+                });
+            }
+        }
+        format!("d={} p={} img={}", fmt_list(fb.bytes().iter()), grid.join(","), fmt_map(&img))
     }
 }
